@@ -569,7 +569,9 @@ def rule_bounds_binding(ctx: Ctx, rid: str):
                                ('upperBoundOfFloatVariables', 'upperBoundOfFloatVariables'),
                                ('numberOfFloatVariables', 'numberOfFloatVariables')):
                 got = C.through_value_copies(p, bound.get(pname))
-                ok = got is not None and key_of(got) == key_of(attr(prob, fld))
+                if got is not None:
+                    got = C.resolve_new_fields(ctx, p, got)
+                ok = got is not None and C.same_mod_ver(got, attr(prob, fld))
                 ctx.check(ok, rid, si.short, si.loc(ne.node), f'Evolvent({pname}=problem.{fld})',
                           f'the solver passes {C.fmt(got)} as the evolvent\'s {pname}; expected problem.{fld}',
                           key=f'{rid}::{si.short}::{pname}')
